@@ -51,9 +51,11 @@ SIGS = {  # signature -> (patch, Lean fix-mask bit or None)
     "C09:paste-placemarkers": ("C09-paste-placemarkers.patch", None),
     "C09:lexer-dot-dot": ("C09-lexer-dot-dot.patch", None),
     "C09:noarg-call-newline": ("C09-noarg-call-newline.patch", None),
+    "C09:funlike-space-before-end": ("C09-funlike-space-before-end.patch", None),
 }
 COMBO = ["C09-if-all.patch", "C09-stringify-sharp-pos.patch", "C09-stringify-backslash-next-token.patch",
-         "C09-paste-placemarkers.patch", "C09-lexer-dot-dot.patch", "C09-noarg-call-newline.patch"]
+         "C09-paste-placemarkers.patch", "C09-lexer-dot-dot.patch", "C09-noarg-call-newline.patch",
+         "C09-funlike-space-before-end.patch"]
 BIT2SIG = {b: s for s, (_, b) in SIGS.items() if b}
 
 _variant_cache = {}
@@ -156,7 +158,9 @@ def parse_blocks(out):
     return res
 
 
+import threading
 _tmpn = [0]
+_tmp_lock = threading.Lock()
 HARNESS_TIMEOUT = 20
 TMPD = os.path.join(CACHE, "c09-tmp")
 os.makedirs(TMPD, exist_ok=True)
@@ -178,8 +182,9 @@ LIMIT_WRAP = ["/bin/sh", "-c", "ulimit -s 1000000; ulimit -v 6291456; ulimit -f 
 def run_limited(cmd, inp=None, timeout=120):
     """run a child with address-space / file-size / cpu limits; stdout and stderr go to size-limited files
     (never to unbounded pipes).  -> (rc, stdout, stderr); rc = -999 on timeout"""
-    _tmpn[0] += 1
-    base = os.path.join(TMPD, f"io{os.getpid()}_{_tmpn[0]}")
+    with _tmp_lock:
+        _tmpn[0] += 1
+        base = os.path.join(TMPD, f"io{os.getpid()}_{_tmpn[0]}")
     fin = None
     try:
         if inp is not None:
@@ -210,8 +215,9 @@ def run_harness(exe, srcs):
     """-> list of {"t","err","x"} ; a crash of the harness on a case gives err = "crash" """
     d = os.path.join(CACHE, "c09-tmp")
     os.makedirs(d, exist_ok=True)
-    _tmpn[0] += 1
-    path = os.path.join(d, f"batch{os.getpid()}_{_tmpn[0]}.txt")
+    with _tmp_lock:
+        _tmpn[0] += 1
+        path = os.path.join(d, f"batch{os.getpid()}_{_tmpn[0]}.txt")
 
     def go(idx):
         with open(path, "w") as f:
@@ -292,8 +298,9 @@ def run_c2m_binary(src):
         return None
     d = os.path.join(CACHE, "c09-tmp")
     os.makedirs(d, exist_ok=True)
-    _tmpn[0] += 1
-    path = os.path.join(d, f"case{os.getpid()}_{_tmpn[0]}.c")
+    with _tmp_lock:
+        _tmpn[0] += 1
+        path = os.path.join(d, f"case{os.getpid()}_{_tmpn[0]}.c")
     with open(path, "w") as f:
         f.write(src)
     try:
@@ -327,8 +334,16 @@ def judge_cases(family, cases, nontrivial):
     """three-way comparison of a list of cases; returns list of failing case indices with details"""
     srcs = [G.render_case(c) for c in cases]
     g = run_gcc_many(srcs)
-    s = run_spec(cases)
-    c = run_harness(HARNESS, srcs)
+    # exponentially growing expansions are dropped before the (stack-hungry) spec and the harness see them
+    sel = [i for i in range(len(cases)) if not g[i]["err"] and len(g[i]["t"]) <= MAX_TOKS]
+    s = [{"t": [], "err": "skipped"}] * len(cases)
+    c = [{"t": [], "err": "not-run", "x": None}] * len(cases)
+    if sel:
+        ss = run_spec([cases[i] for i in sel])
+        cc = run_harness(HARNESS, [srcs[i] for i in sel])
+        s, c = list(s), list(c)
+        for k, i in enumerate(sel):
+            s[i], c[i] = ss[k], cc[k]
     fails = []
     fs = fam_stats.setdefault(family, {"cases": 0, "agree": 0, "discarded": 0, "c2m_ne": 0, "nontrivial": 0})
     for i in range(len(cases)):
@@ -347,6 +362,8 @@ def judge_cases(family, cases, nontrivial):
             continue
         if len(gi["t"]) > MAX_TOKS:
             stats["too_big"] += 1
+            fs["discarded"] += 1
+            continue
         if not G.toks_match(si["t"], gi["t"]):
             if G.glued_match(si["t"], gi["t"]):
                 stats["gcc_text_glued"] = stats.get("gcc_text_glued", 0) + 1   # see c09_gen.glued_match
@@ -400,17 +417,20 @@ def fails_now(case, exe=None):
     return bool(ci["err"]) or not G.toks_match(si["t"], ci["t"])
 
 
-def shrink(case, budget=150):
-    """greedy: drop lines, then tokens of text lines and replacement lists"""
+def shrink(case, budget=150, keep_unlisted=True):
+    """greedy: drop lines, then tokens of text lines and replacement lists.  With keep_unlisted the
+    candidate must also keep failing when all listed candidate repairs are applied, so that shrinking
+    does not drift from an unlisted defect to a listed one."""
     cur = [dict(l) for l in case]
     n = [0]
+    exe_all = patched_harness(COMBO) if keep_unlisted else None
 
     def ok(c):
         n[0] += 1
         if n[0] > budget:
             return False
         try:
-            return fails_now(c)
+            return fails_now(c) and (exe_all is None or fails_now(c, exe_all))
         except Exception:
             return False
 
@@ -683,12 +703,15 @@ def report_expr_fails(fails, trees=None):
             if all(truth_of(r) == f["c2m"] for r, f in zip(rows, sample)):
                 hint = mask
                 break
-        ck.broken_ties.append({"kind": "correspondence", "name": "c2mEval (literal model of eval) vs real c2m",
-                               "first_diff": {"expr": " ".join(model_bad[0]["toks"]), "model": model_bad[0]["model"],
-                                              "c2m_selects_true_group": model_bad[0]["c2m"]},
-                               "hint": (f"the real evaluator behaves like c2mEvalG with fix mask {hint} on the "
-                                        f"disagreeing expressions: set `appliedFixes` in Model/PPExpr.lean accordingly"
-                                        if hint is not None else "no repair set explains the real evaluator")})
+        if not any(b.get("name", "").startswith("c2mEval (literal model") for b in ck.broken_ties):
+            ck.broken_ties.append({"kind": "correspondence", "name": "c2mEval (literal model of eval) vs real c2m",
+                                   "first_diff": {"expr": " ".join(model_bad[0]["toks"]), "model": model_bad[0]["model"],
+                                                  "c2m_selects_true_group": model_bad[0]["c2m"]},
+                                   "hint": (f"the real evaluator behaves like c2mEvalG with (at least) fix mask {hint} "
+                                            f"(1 not, 2 compare, 4 shift, 8 cond, 16 literal, 32 wchar) on {len(sample)} "
+                                            f"disagreeing expressions: the `appliedFixes` definition in Model/PPExpr.lean "
+                                            f"no longer describes the checked tree (all six repairs applied => allFixes)"
+                                            if hint is not None else "no repair set explains the real evaluator")})
     for f in fails:
         if f["kind"] != "violation":
             continue
@@ -874,7 +897,7 @@ def strings_family():
     hl = hout.strip("\n").split("\n")
     ml = out.strip("\n").split("\n")
     st = {"strings": len(strs), "model_ne_code": 0, "roundtrip_fails": 0, "with_escape_pair": 0}
-    if len(hl) != 3 * len(strs) or len(ml) != 4 * len(strs):
+    if len(hl) != 3 * len(strs) or len(ml) != 5 * len(strs):
         ck.broken_ties.append({"kind": "correspondence", "name": "stringify/destringify harness protocol",
                                "first_diff": (hout[:200], out[:200], herr[-200:])})
         return st
@@ -882,8 +905,12 @@ def strings_family():
     unlisted = 0
     for i, x in enumerate(strs):
         hS, hD, hR = hl[3 * i:3 * i + 3]
-        mS, mD, mR, mF = ml[4 * i:4 * i + 4]
+        mS, mD, mR, mF, mQ = ml[5 * i:5 * i + 5]
         model_agrees = (hS, hD, hR) == (mS, mD, mR)
+        if (hS, hD, hR) == (mS, "D" + mF[1:], "R" + mQ[1:]):
+            st["code_follows_destringifyFixed"] = st.get("code_follows_destringifyFixed", 0) + 1
+            if not model_agrees:
+                continue     # repaired code: covered by `stringify_roundtrip_fixed`
         if not model_agrees:
             st["model_ne_code"] += 1
             if st["model_ne_code"] == 1:
